@@ -5,6 +5,8 @@
     schemathesis.core.curl.generate               (src/schemathesis/core/curl.py:14)
     schemathesis.core.curl._filter_headers        (src/schemathesis/core/curl.py:38)
     Case.as_curl_command                          (src/schemathesis/generation/case.py:72; argument plumbing only)
+    ScenarioRecorder.record_* / find_failure_data (src/schemathesis/engine/recorder.py:44-83) and the `on_failure` glue of
+    validate_response                             (engine/phases/unit/_executor.py:304, engine/phases/stateful/_executor.py:272)
 
   Text is `List Char`.  The prepared request (method, url, body, headers) is an input: it is produced by
   `requests.Request(**kwargs).prepare()`, which is third-party code.  `bytes.decode("utf-8", errors="replace")`
@@ -206,5 +208,167 @@ def utf8Go : Nat → List Nat → Str
     else repl :: utf8Go fuel rest
 
 def utf8DecodeReplace (bs : List Nat) : Str := utf8Go (bs.length + 1) bs
+
+/-! ### `ScenarioRecorder` (src/schemathesis/engine/recorder.py) and the `on_failure` glue of `validate_response`
+    (engine/phases/unit/_executor.py:304, engine/phases/stateful/_executor.py:272)
+
+  The recorder is three Python dicts keyed by the test case id.  A `Case` object is its id plus an opaque identity
+  (`obj`: operation, parameters, body — everything `prepare_request` reads).  `σ` is the type of the code sample
+  stored with a failed check: the theorems instantiate it with the command text, the driver with the selected
+  `FailureData` itself (the recorder never looks inside a sample). -/
+
+/-- Python `dict` with `str` keys: lookup … -/
+def dGet {α : Type} : List (Str × α) → Str → Option α
+  | [], _ => none
+  | (k', v) :: rest, k => if k' = k then some v else dGet rest k
+
+/-- … and `d[k] = v`: an existing key keeps its position, a new key goes to the end -/
+def dSet {α : Type} : List (Str × α) → Str → α → List (Str × α)
+  | [], k, v => [(k, v)]
+  | (k', v') :: rest, k, v => if k' = k then (k, v) :: rest else (k', v') :: dSet rest k v
+
+structure CaseVal where
+  id : Str
+  obj : Nat
+  deriving DecidableEq, Repr
+
+/-- `recorder.Request` (`Request.from_prepared_request`): `headers: dict[str, list[str]]` -/
+structure RecRequest where
+  method : Str
+  uri : Str
+  body : Option Str
+  headers : List (Str × List Str)
+  deriving DecidableEq, Repr
+
+/-- `recorder.Interaction`; `verify = none`: there is no response (`record_request`), else `response.verify` -/
+structure Interaction where
+  request : RecRequest
+  verify : Option Bool
+  deriving DecidableEq, Repr
+
+structure CaseNode where
+  value : CaseVal
+  parent : Option Str
+  deriving DecidableEq, Repr
+
+/-- `CheckNode`: `sample = none` for a passed check, `some code_sample` for a failed one -/
+structure CheckNode (σ : Type) where
+  name : Str
+  sample : Option σ
+  deriving DecidableEq, Repr
+
+structure Recorder (σ : Type) where
+  cases : List (Str × CaseNode)
+  checks : List (Str × List (CheckNode σ))
+  interactions : List (Str × Interaction)
+  deriving Repr
+
+def Recorder.empty {σ : Type} : Recorder σ := ⟨[], [], []⟩
+
+structure FailureData where
+  case : CaseVal
+  headers : List (Str × Str)
+  verify : Bool
+  deriving DecidableEq, Repr
+
+/-- the exceptions `find_failure_data` can raise -/
+inductive RecErr | keyError | assertionError | indexError
+  deriving DecidableEq, Repr
+
+deriving instance DecidableEq for Except
+
+/-- `{key: value[0] for key, value in request.headers.items()}` -/
+def firstValues : List (Str × List Str) → Except RecErr (List (Str × Str))
+  | [] => .ok []
+  | (_, []) :: _ => .error .indexError
+  | (k, v :: _) :: rest =>
+    match firstValues rest with
+    | .ok hs => .ok ((k, v) :: hs)
+    | .error e => .error e
+
+/-- `failure.case_id or parent_id` (an empty string is falsy) -/
+def reportedId (parentId : Str) (failureCaseId : Option Str) : Str :=
+  match failureCaseId with
+  | some (c :: cs) => c :: cs
+  | _ => parentId
+
+/-- `ScenarioRecorder.find_failure_data(parent_id=…, failure=…)` -/
+def findFailureData {σ : Type} (st : Recorder σ) (parentId : Str) (failureCaseId : Option Str) :
+    Except RecErr FailureData :=
+  let caseId := reportedId parentId failureCaseId
+  match dGet st.cases caseId with
+  | none => .error .keyError
+  | some node =>
+    match dGet st.interactions caseId with
+    | none => .error .keyError
+    | some ia =>
+      match ia.verify with
+      | none => .error .assertionError
+      | some v =>
+        match firstValues ia.request.headers with
+        | .ok hs => .ok ⟨node.value, hs, v⟩
+        | .error e => .error e
+
+/-- `self.checks.setdefault(case_id, []).append(node)` -/
+def appendCheck {σ : Type} (checks : List (Str × List (CheckNode σ))) (id : Str) (node : CheckNode σ) :
+    List (Str × List (CheckNode σ)) :=
+  dSet checks id ((dGet checks id).getD [] ++ [node])
+
+/-- what is done to a recorder during a scenario -/
+inductive Op
+  /-- `record_case(parent_id=…, case=…)` (stored under `case.id`) -/
+  | recordCase (parent : Option Str) (c : CaseVal)
+  /-- `record_response(case_id=…, response=…)` -/
+  | recordResponse (id : Str) (req : RecRequest) (verify : Bool)
+  /-- `record_request(case_id=…, request=…)` (network error: no response) -/
+  | recordRequest (id : Str) (req : RecRequest)
+  /-- `on_success(name, case)` -/
+  | checkSuccess (name id : Str)
+  /-- `on_failure(name, _, failure)` inside `validate_response(case=<parentId>, …)`:
+      `find_failure_data`, `as_curl_command`, `record_check_failure(case_id=failure_data.case.id, …)` -/
+  | onFailure (name parentId : Str) (failureCaseId : Option Str)
+  deriving DecidableEq, Repr
+
+/-- one operation; `mk` builds the code sample from the selected data. An exception inside `on_failure` leaves the
+    recorder as it was. -/
+def step {σ : Type} (mk : FailureData → σ) (st : Recorder σ) : Op → Recorder σ
+  | .recordCase p c => { st with cases := dSet st.cases c.id ⟨c, p⟩ }
+  | .recordResponse id r v => { st with interactions := dSet st.interactions id ⟨r, some v⟩ }
+  | .recordRequest id r => { st with interactions := dSet st.interactions id ⟨r, none⟩ }
+  | .checkSuccess n id => { st with checks := appendCheck st.checks id ⟨n, none⟩ }
+  | .onFailure n pid f =>
+    match findFailureData st pid f with
+    | .ok fd => { st with checks := appendCheck st.checks fd.case.id ⟨n, some (mk fd)⟩ }
+    | .error _ => st
+
+def run {σ : Type} (mk : FailureData → σ) (h : List Op) : Recorder σ := h.foldl (step mk) Recorder.empty
+
+/-- the outcome of every `on_failure` of the history, in order (the exception, or the data selected) -/
+def outcomes {σ : Type} (mk : FailureData → σ) : Recorder σ → List Op → List (Except RecErr FailureData)
+  | _, [] => []
+  | st, op :: rest =>
+    match op with
+    | .onFailure _ pid f => findFailureData st pid f :: outcomes mk (step mk st op) rest
+    | _ => outcomes mk (step mk st op) rest
+
+/-- `prepare_request(case, headers, sanitize=False)` is third-party code (`requests`): a parameter.
+    What it returns, plus the keys of `case.headers`. -/
+structure Prepared where
+  method : Str
+  url : Str
+  body : Option Str
+  headers : List (Str × Str)
+  known : List Str
+  deriving Repr
+
+/-- `Case.as_curl_command(headers=…, verify=…)` -/
+def asCurlCommand (vs : Variants) (tbl : Table) (prep : Nat → List (Str × Str) → Prepared) (c : CaseVal)
+    (headers : List (Str × Str)) (verify : Bool) : Str :=
+  let p := prep c.obj headers
+  generate vs tbl ⟨p.method, p.url, p.body, verify, p.headers, p.known⟩
+
+/-- `failure_data.case.as_curl_command(headers=failure_data.headers, verify=failure_data.verify)` -/
+def codeSample (vs : Variants) (tbl : Table) (prep : Nat → List (Str × Str) → Prepared) (fd : FailureData) : Str :=
+  asCurlCommand vs tbl prep fd.case fd.headers fd.verify
 
 end SV.Model.C09
